@@ -15,6 +15,7 @@ import (
 	"io"
 	"sort"
 	"strings"
+	"sync"
 	"sync/atomic"
 
 	"mellium.im/xmpp/internal/marshal"
@@ -1171,6 +1172,71 @@ func checkStanzaError(c *core.Case, v Val) {
 		}
 	}
 
+	// Encoding is a read-only operation: the value (its Text map is shared by
+	// every copy of it) is what it was before the six encoders ran, ...
+	textChanged := func() string {
+		if len(e.Text) != len(v.Texts) {
+			return fmt.Sprintf("%d texts before, %d after", len(v.Texts), len(e.Text))
+		}
+		for _, t := range v.Texts {
+			if got, ok := e.Text[t.Lang]; !ok || got != t.Value {
+				return fmt.Sprintf("text %q was %q, is %q (present=%v)", t.Lang, t.Value, got, ok)
+			}
+		}
+		return ""
+	}
+	if d := textChanged(); d != "" {
+		c.Violate("codec:I:Error:encode:value-changed", "encoding a stanza.Error changed its Text map: %s", d)
+		return
+	}
+	c.Count("stanza_errors_unchanged_by_encoding", 1)
+	// ... and so two goroutines may encode one value (a kept-around error that
+	// several sessions send) at the same time: the children run under the race
+	// detector, and the results must be the sequential ones.
+	if c.Index%8 == 0 && len(e.Text) > 0 {
+		want, werr := xml.Marshal(e)
+		var wg sync.WaitGroup
+		bad := make([]string, 4)
+		for g := 0; g < 4; g++ {
+			g := g
+			e2 := e // a copy shares the map
+			wg.Add(1)
+			go func() {
+				defer wg.Done()
+				c.Guard("concurrent encode", func() {
+					for n := 0; n < 20; n++ {
+						var b []byte
+						var err error
+						if (g+n)%2 == 0 {
+							b, err = xml.Marshal(e2)
+						} else {
+							b, err = encodeTokens(e2.TokenReader())
+							if err == nil && werr == nil {
+								continue // (another path: compared with xml.Marshal by law A above)
+							}
+						}
+						if (err == nil) != (werr == nil) || (err == nil && !bytes.Equal(b, want)) {
+							bad[g] = fmt.Sprintf("got %q (err %v), sequentially %q (err %v)", b, err, want, werr)
+							return
+						}
+					}
+				})
+			}()
+		}
+		wg.Wait()
+		for _, b := range bad {
+			if b != "" {
+				c.Violate("codec:I:Error:encode:concurrent", "two goroutines encoding copies of one stanza.Error: %s", b)
+				return
+			}
+		}
+		if d := textChanged(); d != "" {
+			c.Violate("codec:I:Error:encode:value-changed", "encoding a stanza.Error concurrently changed its Text map: %s", d)
+			return
+		}
+		c.Count("stanza_errors_encoded_by_several_goroutines_at_once", 1)
+	}
+
 	// Wrap: the application condition follows the condition and texts, unchanged
 	if len(v.Payload) > 0 {
 		c.Count("app_payloads", 1)
@@ -1350,7 +1416,7 @@ func Prop() *core.Prop {
 		"echoed_payload_error_checks", "helper_payload_variant_checks", "result_payload_starting_with_non_element",
 		"cross_decoded_outputs", "cross_decoded_outputs_with_language", "qualified_attribute_checks", "snapshot_decoded_copy_kept",
 		"concurrent_decode_scenarios", "concurrent_decodes",
-		"snapshot_checks", "snapshot_text_map_mutated", "snapshot_reused_decode_target", "snapshot_stanza_helpers", "snapshot_stream_error"}
+		"stanza_errors_unchanged_by_encoding", "stanza_errors_encoded_by_several_goroutines_at_once", "snapshot_checks", "snapshot_text_map_mutated", "snapshot_reused_decode_target", "snapshot_stanza_helpers", "snapshot_stream_error"}
 	for _, k := range []string{"iq", "message", "presence"} {
 		for _, n := range []string{"none", "client", "server"} {
 			req = append(req, k+"_ns_"+n)
